@@ -169,6 +169,9 @@ def sweep_metrics(tier, seed):
     yield dict(seed=seed + 1, classes=3, length=5, logits_mask=lmk)
     yield dict(seed=seed + 2, classes=3, length=4, logits_mask=lmk)
   yield dict(seed=seed, classes=4, length=4, masked=[0, 1])
+  # masked_target_values=() means: mask nothing (label 0 counts like any other)
+  yield dict(seed=seed, classes=3, length=5, masked=[])
+  yield dict(seed=seed + 3, classes=2, length=4, masked=[])
 
 
 CHECKERS = {'metrics': (check_metrics, sweep_metrics)}
